@@ -1,5 +1,5 @@
 add("C02", "exploration",
-    "Generated raw HTTP/1.1 requests (grammar over method, escaped/unclean targets, queries, repeated and long header fields, "
+    "Generated raw HTTP/1.1 requests (grammar over method, escaped/unclean targets, queries, repeated and long header fields (names that merely resemble hop-by-hop fields included), "
     "hop-by-hop fields, Content-Length and chunked bodies up to MiBs; usually one at a time, sometimes 2-6 at once) are sent through the real server and agent binaries; a "
     "recording raw-TCP backend compares request line, Host, every end-to-end field's ordered values and the body byte for byte. "
     "Sampling, not proof: the input space is unbounded.",
@@ -7,7 +7,7 @@ add("C02", "exploration",
     "Domain excludes repeated singleton fields, empty Accept-Encoding/User-Agent, Expect, CONNECT, absolute-form targets.",
     "property-based testing (rapid): grammar-generated requests, round-trip oracle at a recording backend", "3/C02")
 add("C03", "exploration",
-    "Generated backend responses (grammar over interim 1xx, final status 200-599, repeated/empty/long fields, Set-Cookie, hop-by-hop "
+    "Generated backend responses (grammar over interim 1xx, final status 200-599, repeated/empty/long fields incl. Proxy-Status-like names, Set-Cookie, hop-by-hop "
     "fields, three framings, chunk sizes incl. 1-byte first chunk, declared/undeclared/comma-joined trailers, pauses between writes) "
     "are served by a scripted raw-TCP backend and by an h2c backend behind the real agent (-race) and server binaries; a raw client "
     "compares status, every end-to-end field in both directions (nothing lost, nothing invented), body and trailers. Race reports of "
@@ -20,20 +20,22 @@ add("C01", "exploration",
     "binaries generated) run against the real server and agent binaries built with -race; each request carries a unique token that the "
     "harness backend verifies on arrival and echoes into header, cookie, body and trailer together with a per-invocation nonce. Any "
     "foreign token, duplicated nonce, missing response or race/fatal report is a violation. Interleavings are sampled (the race "
-    "detector amplifies), not enumerated.",
+    "detector amplifies), not enumerated. Second part (proxy-replaced): the proxy process is killed and started again on the same "
+    "port while 1-8 requests are at the backend and 1-12 new clients arrive; the surviving agent uploads the old responses to the new "
+    "process, and every response a client receives must still carry its own token.",
     "The Go scheduler of the binaries is not controlled; concurrency is perturbed through generated latencies/offsets/GOMAXPROCS only.",
     "property-based testing (rapid): generated concurrent request sets, token/nonce correlation oracle + race detector", "3/C01")
 add("C04", "exploration",
     "Agent part: generated histories of pending-list replies (repeats, permutations, overlapping subsets, full re-listing as the App "
     "Engine proxy does, 999/1000-ID boundary cases) with generated gaps and fetch/upload/backend delays are served by a fake proxy to the "
     "real agent binary; a counting backend and the upload log give invocations per ID (must be exactly 1 for every listed ID). Server "
-    "part: 1-16 concurrent harness pollers against the real stand-alone proxy while clients arrive; the multiset of listed IDs must be "
+    "part: 1-16 concurrent harness pollers against the real stand-alone proxy while clients arrive (incl. bursts of 99-250 clients queued before the first poll); the multiset of listed IDs must be "
     "duplicate-free and complete, and resolve to distinct clients. Histories and schedules are sampled.",
     "The 1000-entry window is taken from the property text; IDs of earlier cases still occupy the agent's LRU (they are older, so they "
     "are evicted first). app/store's own listing is exercised by C19, not here.",
     "property-based testing (rapid): generated list-reply histories against a counting model; concurrent pollers with a multiset oracle", "3/C04")
 add("C05", "exploration",
-    "Generated chunk-size/pause vectors (1 B .. 4 MiB, 1-50 chunks, chunked and Content-Length framing) x five agent configurations (default, session tracking, shim, banner, all) are produced by a scripted backend "
+    "Generated chunk-size/pause vectors (1 B .. 4 MiB, 1-50 chunks, chunked and Content-Length framing, octet-stream and text/html) x five agent configurations (default, session tracking, shim, banner, all) are produced by a scripted backend "
     "in lock-step with a fake proxy that incrementally decodes the agent's upload: chunk i+1 is only produced once every byte of chunk i "
     "was observed at the proxy. A chunk withheld for 5 s while the producer is idle and delivered only after the producer is released "
     "is a confirmed violation; the reassembled body is also compared. 'Bounded time' is checked against that generous bound only.",
@@ -43,7 +45,7 @@ add("C05", "exploration",
 add("C06", "fault_enumeration",
     "Generated fault scripts (7 fault kinds x byte offsets around the 4096-byte replay buffer x attempt index x 'failed connection keeps "
     "draining') are played by a byte-level TCP fault server against utils.NewResponseForwarder in-process under -race, with response "
-    "sizes around 4096 written in generated segments/pauses. Every acknowledged attempt must decode to exactly the reference response; "
+    "sizes around 4096 written in generated segments/pauses (incl. bodies sized so that the serialised response ends within a few bytes of offset 4096, framing overhead measured first) and 0-3 healthy uploads of other requests running alongside. Every acknowledged attempt must decode to exactly the reference response; "
     "at most 3 attempts; no retry after more than 4096 bytes were consumed; the handler must return. The kind x offset grid is sampled "
     "randomly (densely in the thorough tier), timings of the stale reader are not controlled.",
     "The fault server acknowledges whatever well-framed POST body arrives (like a proxy that stores before parsing). That Close() returns "
@@ -68,9 +70,9 @@ add("C09", "exploration",
 add("C20", "exploration",
     "Health part: generated pass/fail sequences of health checks x thresholds 1-4 are served by a scripted backend to the real agent binary; "
     "a counter model over the observed check sequence decides when the agent must exit (and that it must not exit earlier), and fake-proxy "
-    "timestamps decide that no pending-list call precedes the first passing check. Shutdown part: signal x grace period x request phase x "
+    "timestamps decide that no pending-list call precedes the first passing check. Shutdown part: signal x grace period x request phase (idle, listed, at the backend, uploading, list calls failing since shortly before the signal) x "
     "backend latency scenarios; one-sided time bounds on exit, a list-call cut-off rule and complete upload of the request that was at the "
-    "backend. Scenarios are sampled (whole-second granularity of the health interval limits the count).",
+    "backend or already being uploaded. Scenarios are sampled (whole-second granularity of the health interval limits the count).",
     "Time bounds are one-sided and generous (>=0.5 s slack); phases other than 'at backend' are only checked for exit timing and the "
     "list-call rule. A bound hit only once is reported as inconclusive.",
     "property-based testing (rapid): generated health-check histories against a counter model; generated signal/phase/grace scenarios with one-sided time bounds", "3/C20")
@@ -84,7 +86,7 @@ add("C07", "fault_enumeration",
     "timing of faults relative to healthy requests is sampled.",
     "fault injection driven by rapid-generated request/fault streams + exhaustive kind x position grid; history invariant oracle", "3/C07")
 add("C10", "exploration",
-    "Generated request histories (session slots, anonymous and forged ids, hosts, paths, backend Set-Cookie operations incl. deletion, "
+    "Generated request histories (session slots, anonymous and forged ids, hosts, paths incl. trailing-slash, empty and dot segments, backend Set-Cookie operations incl. deletion, "
     "path/domain scoping, Secure/HttpOnly, exotic Set-Cookie lines a strict parser skips, client-supplied extra cookies; cache limit, lifetime and SSL override generated) run against "
     "the sessions.Cache handler in-process and are compared step by step with one independent net/http/cookiejar per session id; every "
     "cookie value carries its session tag so a cross-session leak is visible independently of the model; attributes and expiry of the "
@@ -97,16 +99,16 @@ add("C11", "exploration",
     "a post concurrent with a poll; text = arbitrary valid UTF-8, binary = arbitrary bytes, sizes 0..1 MiB; shim protocol versions 0 and 1) run "
     "against websockets.Proxy in-process with a real gorilla/websocket backend and are compared with model queues in both directions. "
     "Injection: generated JSON/non-JSON messages x request headers with injection enabled, compared by a JSON-value oracle (byte identity "
-    "for everything that is not a JSON object with a resource.headers object); a native fuzz target repeats the byte-identity half in the "
+    "for everything that is not a single JSON object with a resource.headers object, e.g. two concatenated documents or an object followed by a trailer); a native fuzz target repeats the byte-identity half in the "
     "thorough tier. Sequences and timings are sampled.",
     "One data post and one poll outstanding at a time (as the browser shim does); polls are only issued while a message is outstanding, so "
     "the 20 s poll timeout is not exercised here. JSON numbers are float64-exact; version 0 carries text only.",
     "stateful property-based testing (rapid): generated message/batching sequences against model queues; JSON-value oracle for injection; native go fuzzing", "3/C11")
 add("C12", "exploration",
     "Generated call histories over three session slots (open, data/poll/close with valid, unknown, already-closed, malformed and wrongly typed "
-    "arguments and odd message shapes, backend sends, backend closes with and without immediate polling) and concurrent groups of 2-6 calls on one session released from a barrier run against "
+    "arguments and odd message shapes, backend sends, backend closes with and without immediate polling, slow-failing opens overlapping successful ones) and concurrent groups of 2-6 calls on one session released from a barrier run against "
     "websockets.Proxy in-process under -race; a state-machine model of the session table yields the allowed status set per call; every "
-    "call must be answered (a panic is caught per call, an unanswered call after 15 s is a wedge); the backend must observe client closes, "
+    "call must be answered (a panic is caught per call, an unanswered call after 15 s is a wedge); a new session id must differ from the id of every session still open; the backend must observe client closes, "
     "and polls after a backend close must deliver the queued messages and then 400. Interleavings inside a group are sampled (hundreds of "
     "groups per run), not enumerated.",
     "Polls are only issued when a message or a close is pending (the 20 s / 408 path is sampled once in the thorough tier). For calls racing "
@@ -129,7 +131,8 @@ add("C14", "exploration",
     "served => banner, frame src = requested URL, uncacheable, X-Frame-Options sameorigin). Shim script: generated bodies with <head> at "
     "offsets around the 1024-byte window (ASCII, multi-byte and invalid-UTF-8 filler) and generated read segmentations run through websockets.ShimBody (optionally followed by the "
     "banner handler); the body must be the original or the original with exactly one script block spliced after the first <head>, and "
-    "must be spliced when <head> lies inside the first read. Native fuzz targets repeat both oracles on raw inputs in the thorough tier.",
+    "must be spliced when <head> lies inside the first read. Concurrent banner part: 8-32 goroutines x 5-20 framed requests for distinct URLs through one banner.Proxy with a slow writer; "
+    "each page must equal the page served for the same URL on its own. Native fuzz targets repeat both oracles on raw inputs in the thorough tier.",
     "The predicate is liberal about letter case of media types (the code may recognise fewer documents as HTML, never more). The handler-level "
     "pipeline (ModifyResponse then ResponseWriter) is rebuilt by the harness the way agent.go wires it.",
     "property-based testing (rapid) + native go fuzzing: differential feature-on vs. wrapped response under a reference predicate; splice-validity oracle", "3/C14")
@@ -153,7 +156,7 @@ add("C16", "exploration",
     "stateful property-based testing (rapid): generated open/write/close histories, end-of-stream and resource-baseline oracle", "3/C16")
 add("C18", "exploration",
     "Generated registries (0-6 backends, overlapping/nested/duplicate/empty prefixes, users incl. allUsers, last-seen ages around the 5-minute "
-    "window) are written through app/store's real AddBackend/ListPendingRequests into a wire-level fake of datastore_v3 and looked up with "
+    "window, registration histories: registered again or deleted and registered again followed by another poll) are written through app/store's real AddBackend/ListPendingRequests into a wire-level fake of datastore_v3 and looked up with "
     "LookupBackend in-process; an independent longest-prefix specification yields the set of acceptable answers (ties and dead best matches "
     "are set-valued); determinism under repetition and under permuted insertion order into a fresh datastore, and a metamorphic relation "
     "(adding a non-matching backend changes nothing) are checked as well. The thorough tier enumerates all registries of <= 3 single-prefix "
@@ -163,7 +166,7 @@ add("C18", "exploration",
     "property-based testing (rapid) against an independent set-valued specification; metamorphic and determinism relations; bounded-exhaustive enumeration in the thorough tier", "3/C18")
 add("C17", "exploration",
     "Generated call histories (admin API calls by five kinds of caller, agent pending/request/response calls with every combination of "
-    "OAuth identity, backend id and request id class, re-registration of a backend id for another agent account or end user, end-user requests by owners, other users and anonymous callers) run against the three "
+    "OAuth identity, backend id and request id class, re-registration of a backend id for another agent account or end user, end-user requests by owners, other users and anonymous callers, two users on the same path prefix fetching the same cacheable long URL) run against the three "
     "services of the real App Engine proxy binary (-race) on a wire-level fake of datastore_v3/memcache/user, the harness playing the App "
     "Engine front end; a reference access-control model gives the status class of every call (401/403/404/400/200), and the registry, the "
     "Completed flags and the routing of stored requests are read back from the fake datastore after each step; clients must receive exactly "
@@ -177,7 +180,7 @@ add("C19", "fault_enumeration",
     "payloads are calibrated so that the serialised size lands exactly on 999999/1000000/1000001/1999999/2000000/2000001/3.5M; fetched "
     "bytes must parse back to the client's own request and each client must receive the response posted under its own id; completed ids "
     "must leave the pending list. Blobs: write/read round trips through cache+store in-process at the same sizes and at 11-31 MB (ten and more parts) with memcache kept or "
-    "flushed. Faults: subsets of nine store operations fail for their first 1-5 matching calls during a generated phase; every call must "
+    "flushed, and writes of 1-12.5 MB whose first 1-7 (or all) blob-part Puts fail (the write must return, and success implies a complete read-back). Faults: subsets of nine store operations fail for their first 1-5 matching calls during a generated phase; every call must "
     "return within 8 s (the waiting client within 45 s) with a correct result or an error status, and a re-posted response must arrive "
     "intact. The fault space (subset x count x phase x sizes) is sampled, not enumerated; the 504 path runs once in the thorough tier.",
     "The fake datastore/memcache implement only what the code uses (no 1 MiB RPC limit, no eventual consistency); every client request has "
